@@ -89,6 +89,34 @@ theorem fresh_name_accepted (fs : Frames) (n : String) (h : lookupInFunction fs 
   | some b' => rw [lookupLocal_eq_lookupInFunction fs n b' hl] at h; cases h
   | none => simp [h]
 
+/-- MAIN (mutation through a binding): assigning a field or an element of `x`, or calling a `mut self` method on it,
+is rejected whenever the nearest `x` of the function is immutable — at any nesting depth below its declaration —
+unless `x` is the variable of an enclosing `for` loop. -/
+theorem mutation_through_immutable_rejected (fs : Frames) (loopVars : List String) (n : String) (b : Binding)
+    (hfound : lookupInFunction fs n = some b) (himm : b.isMutable = false) (hloop : n ∉ loopVars) :
+    checkMutateThrough fs loopVars n = .mutationWithoutMut := by
+  unfold checkMutateThrough
+  have : loopVars.contains n = false := by
+    cases h : loopVars.contains n with
+    | false => rfl
+    | true => exact absurd (List.contains_iff_mem.1 h) hloop
+  simp [hloop, hfound, himm]
+
+theorem mutation_through_mutable_accepted (fs : Frames) (loopVars : List String) (n : String) (b : Binding)
+    (hfound : lookupInFunction fs n = some b) (hmut : b.isMutable = true) :
+    checkMutateThrough fs loopVars n = .accepted := by
+  unfold checkMutateThrough
+  split
+  · rfl
+  · simp [hfound, hmut]
+
+/-- Searching only the innermost block loses the rule one block down (the shape of a seeded change). -/
+theorem local_lookup_misses_nested_mutation :
+    checkMutateThroughLocal [[], [⟨"c", false⟩]] "c" = .accepted ∧
+    checkMutateThrough [[], [⟨"c", false⟩]] [] "c" = .mutationWithoutMut ∧
+    checkMutateThrough [[], [], [⟨"c", false⟩]] ["p"] "c" = .mutationWithoutMut ∧
+    checkMutateThrough [[⟨"p", false⟩], []] ["p"] "p" = .accepted := by decide
+
 /-- The depth matters for the checker as it was: one block down, the same re-assignment was accepted. -/
 theorem old_checker_missed_nested :
     checkAssignOld [[], [⟨"x", false⟩]] "x" = .accepted ∧ checkAssign [[], [⟨"x", false⟩]] "x" false = .mutationWithoutMut ∧
